@@ -28,6 +28,16 @@ type half struct {
 	cut      int // >= 0: only the first cut octets ever written are delivered, then EOF
 	written  int
 	nread    int
+	events   []ioEvent // SetReadDeadline calls and data-returning Reads on this direction, in order
+}
+
+// ioEvent: 'D' = SetReadDeadline(deadline) called at time at; 'R' = a Read returned data, after
+// which after octets of the stream had been consumed in total.
+type ioEvent struct {
+	kind     byte
+	at       time.Time
+	deadline time.Time
+	after    int
 }
 
 func newHalf() *half { h := &half{cut: -1}; h.cond = sync.NewCond(&h.mu); return h }
@@ -84,6 +94,7 @@ func (e *endpoint) Read(p []byte) (int, error) {
 			copy(p, h.buf[:n])
 			h.buf = h.buf[n:]
 			h.nread += n
+			h.events = append(h.events, ioEvent{kind: 'R', at: time.Now(), after: h.nread})
 			return n, nil
 		}
 		if h.eof {
@@ -165,6 +176,7 @@ func (e *endpoint) SetReadDeadline(t time.Time) error {
 	h.mu.Lock()
 	defer h.mu.Unlock()
 	h.deadline = t
+	h.events = append(h.events, ioEvent{kind: 'D', at: time.Now(), deadline: t})
 	if h.timer != nil {
 		h.timer.Stop()
 		h.timer = nil
@@ -182,6 +194,12 @@ func (e *endpoint) SetReadDeadline(t time.Time) error {
 		}
 	}
 	return nil
+}
+
+func (e *endpoint) readEvents() []ioEvent {
+	e.in.mu.Lock()
+	defer e.in.mu.Unlock()
+	return append([]ioEvent{}, e.in.events...)
 }
 
 // consumed reports how many octets this end has read so far.
